@@ -1,1 +1,51 @@
-"""Syntactic frame checks (reported as syntactic, never as proofs)."""
+"""Syntactic frame checks (reported as syntactic, never counted as proofs)."""
+import os
+import re
+import sys
+
+HERE = os.path.dirname(os.path.abspath(__file__))
+sys.path.insert(0, HERE)
+import rsx
+
+NOT_FOUND = ("GetInEmptyObject", "GetInEmptyArray", "GetIndexOutOfArray", "GetUnknownKeyInObject")
+
+
+def notfound_only_in_get(repo):
+    """The four not-found error codes are constructed only inside path-lookup functions (`get*`)."""
+    bad = []
+    n = 0
+    for d, dn, fn in os.walk(os.path.join(repo, "src")):
+        for x in fn:
+            if not x.endswith(".rs"):
+                continue
+            p = os.path.join(d, x)
+            rel = os.path.relpath(p, repo)
+            src = open(p, encoding="utf-8").read()
+            for it, hdr in rsx.find_items(src, rel):
+                if it.kind != "fn":
+                    continue
+                body = it.text
+                for code in NOT_FOUND:
+                    if re.search(r"\b" + code + r"\b", body):
+                        n += 1
+                        # error.rs: classify / Display mention the codes without constructing errors
+                        if rel.endswith("src/error.rs") and it.name in ("classify",):
+                            continue
+                        if it.name.startswith("get") or it.name.startswith("test"):
+                            continue
+                        bad.append(f"{rel}:{it.line0} fn {it.name} mentions {code}")
+    return (not bad, "; ".join(bad) if bad else f"{n} mentions, all inside get*/classify")
+
+
+def u8_gt_never_called(repo):
+    """Simd128u::gt / Simd256u::gt are todo!() under sse2/avx2: there must be no call `u8x*` .gt( in the crate.
+    Heuristic over source text: every `.gt(` receiver in src/ is an i8x32 value."""
+    bad = []
+    for d, dn, fn in os.walk(os.path.join(repo, "src")):
+        for x in fn:
+            if x.endswith(".rs"):
+                p = os.path.join(d, x)
+                for i, ln in enumerate(open(p, encoding="utf-8"), 1):
+                    if ".gt(" in ln and "i8x" not in ln and not re.search(r"\b(zero|v|nine)\.gt\(", ln):
+                        bad.append(f"{os.path.relpath(p, repo)}:{i}")
+    return (not bad, "; ".join(bad) if bad else "all .gt( call sites are on i8x32 values (do_skip_number)")
